@@ -171,4 +171,4 @@ CLAIM = {'note': "Trusted: Coq kernel + vm_compute; harness; typing's Union/==/`
          '__mro__/__bases__ tables.',
  'ref': '4/C07',
  'technique': 'Coq proof by nested induction over types (monotonicity of every rewriter and of chains) + vm_compute differential correspondence',
- 'text': 'Coq model of the generic traversal and all shipped rewriters (Model/Rewrite.v) with DEFAULT_REWRITER regenerated from source; theorems for every class table with closed MROs, every well-formed type and every value: rw_never_narrows (each rewriter: values admitted by the input under the tight reading are admitted by the output), rw_never_narrows_annotation / _tight (the sharper per-reading statements), chain_never_narrows (every chain in which RemoveEmptyContainers never follows a RewriteLargeUnion, hence all such pairs), default_chain_never_narrows (the chain the source declares today), rw_well_formed; the trigger clause: rw_unchanged_without_trigger / rw_unchanged_unless_fires (a normal type is returned unchanged unless the documented trigger occurs at a position the rewriter visits), rw_changes_exactly_when_fires (for the default chain's rewriters the trigger is exactly the condition for a change), large_union_only_above_max, infer_produces_normal, rw_keeps_normal; totality holds by construction of the model. Differential check over ~22k (rewriter chain, type) cases with Coq-evaluated verdicts: no exception, no witness value lost, change only with trigger, model = implementation.'}
+ 'text': 'Coq model of the generic traversal and all shipped rewriters (Model/Rewrite.v) with DEFAULT_REWRITER regenerated from source; theorems for every class table with closed MROs, every well-formed type and every value: rw_never_narrows (each rewriter: values admitted by the input under the tight reading are admitted by the output), rw_never_narrows_annotation / _tight (the sharper per-reading statements), chain_never_narrows (every chain in which RemoveEmptyContainers never follows a RewriteLargeUnion, hence all such pairs), default_chain_never_narrows (the chain the source declares today), rw_well_formed; the trigger clause: rw_unchanged_without_trigger / rw_unchanged_unless_fires (a normal type is returned unchanged unless the documented trigger occurs at a position the rewriter visits), rw_changes_exactly_when_fires (for the rewriters of the default chain the trigger is exactly the condition for a change), large_union_only_above_max, infer_produces_normal, rw_keeps_normal; totality holds by construction of the model. Differential check over ~22k (rewriter chain, type) cases with Coq-evaluated verdicts: no exception, no witness value lost, change only with trigger, model = implementation.'}
